@@ -9,27 +9,32 @@
    text, and the values come back (ranges by expansion).
    Proved part: [good_val] - int32, int64, chars, true/false/nil/inf, strings
    and quoted symbols with every escape and every string line break; every
-   line length, precision, column; compression off or on (no run is compressed
-   in the model yet: PrintModel.convert_to_range is the identity, see notes). *)
+   line length, precision, column.  The model covers range conversion, arrays
+   and messages (Pretty/PrintModel.v, ScanModel.v); the round trip of whole
+   lists is proved with compression off (C10_roundtrip_partial,
+   C10_message_partial), the range conversion itself and the reading of
+   repetitions separately (C10_range_expand, C10_repetition_reads_partial);
+   see notes/C10.md for what is still open. *)
 From Coq Require Import List ZArith.
 From RtoscV Require Import Pretty.Tok Pretty.FloatFmt Pretty.PrintModel Pretty.ScanModel
-  Pretty.PrettyProofs Pretty.PrettyRegress.
+  Pretty.PrettyProofs Pretty.RangeProofs Pretty.RunProofs Pretty.PrettyRegress.
 Import ListNotations.
 Local Open Scope Z_scope.
 
 (* dec2f/dec2d: oracles for the value of a decimal floating point literal
    (arbitrary functions, no hypothesis) *)
 Theorem C10_roundtrip_partial : forall (dec2f dec2d : list Z -> Z) o vs text w,
+  compress o = false ->
   Forall good_val vs -> print_arg_vals o vs 0 = Some (text, w) ->
   w = len text /\
-  count_printed_arg_vals text = Ok (true, Z.of_nat (length vs)) /\
+  count_printed_arg_vals dec2f dec2d text = Ok (true, Z.of_nat (length vs)) /\
   scan_arg_vals dec2f dec2d text (Z.of_nat (length vs)) = Ok (vs, []).
 Proof. exact roundtrip_scalars. Qed.
 
 (* the printer model never fails on good values: the theorem above speaks
    about every such list and every option record *)
 Theorem C10_print_total : forall o vs,
-  Forall good_val vs -> exists text w, print_arg_vals o vs 0 = Some (text, w).
+  compress o = false -> Forall good_val vs -> exists text w, print_arg_vals o vs 0 = Some (text, w).
 Proof. exact print_arg_vals_total. Qed.
 
 (* line breaks (" " replaced by "\n    ", strings split into concatenated
@@ -37,9 +42,42 @@ Proof. exact print_arg_vals_total. Qed.
    whatever column a string was broken, both recognisers read the values *)
 Theorem C10_linebreak_transparent : forall (dec2f dec2d : list Z -> Z) vs T,
   lang dec2f dec2d vs T ->
-  count_printed_arg_vals T = Ok (true, Z.of_nat (length vs)) /\
+  count_printed_arg_vals dec2f dec2d T = Ok (true, Z.of_nat (length vs)) /\
   scan_arg_vals dec2f dec2d T (Z.of_nat (length vs)) = Ok (vs, []).
 Proof. exact (fun a b vs T H => conj (count_lang a b vs T H) (scan_lang a b vs T H)). Qed.
+
+(* rtosc_convert_to_range: whenever it converts the head of a list of scalar
+   values into a range block, the block expands (PrintModel.expand) to exactly
+   the kk slots it replaces, and kk >= 5 (the threshold).  For runs with a step
+   (types i, h, c; wrap-around arithmetic) and constant runs of every scalar
+   type except floats/doubles (their == is not identity: signed-zero-run). *)
+Theorem C10_range_expand : forall o args size c kk,
+  Forall scalar args -> Forall inrv args -> exact (hd VN args) ->
+  Z.of_nat (length args) < 2 ^ 31 ->
+  convert_to_range o args size = CYes c kk ->
+  exists n, kk = Z.of_nat n /\ (5 <= n)%nat /\ expand c = Some (firstn n args).
+Proof. exact range_expand. Qed.
+
+(* whole messages (rtosc_print_message / rtosc_count_printed_arg_vals_of_msg /
+   rtosc_scan_message): the same for an address that starts with '/' and has
+   no white space, including the line break that replaces the blank after the
+   address and the message without arguments *)
+Theorem C10_message_partial : forall (dec2f dec2d : list Z -> Z) o addr vs text w,
+  compress o = false -> good_addr addr -> Forall good_val vs ->
+  print_message o addr vs 0 = Some (text, w) ->
+  w = len text /\
+  count_printed_arg_vals_of_msg dec2f dec2d text = Ok (true, Z.of_nat (length vs)) /\
+  scan_message dec2f dec2d text (Z.of_nat (length vs)) = Ok (addr, vs, []).
+Proof. exact message_roundtrip. Qed.
+
+(* repetitions: both recognisers read "NxV" (V a token of a good value) back as
+   the range header and the value, in any sequence of values and repetitions
+   separated by white space *)
+Theorem C10_repetition_reads_partial : forall (dec2f dec2d : list Z -> Z) els T,
+  elang dec2f dec2d els T ->
+  count_printed_arg_vals dec2f dec2d T = Ok (true, total_slots els) /\
+  scan_arg_vals dec2f dec2d T (total_slots els) = Ok (concat els, []).
+Proof. exact elements_agree. Qed.
 
 (* decimal integers: no open hypothesis about printf/sscanf *)
 Theorem C10_decimal_roundtrip : forall v rest,
@@ -49,7 +87,7 @@ Proof. exact (fun v rest H => conj (sc_d_print v rest H) (sc_i_print v rest H)).
 (* defects of the pinned tree, witnesses against the pre-fix functions *)
 Theorem C10_roundtrip_refuted_D7 :
   exists text w, print_arg_vals opts80 [VI (-10); VI (-20)] 0 = Some (text, w) /\
-    count_printed_arg_vals text = Ok (true, 2) /\
+    count_printed_arg_vals no_oracle no_oracle text = Ok (true, 2) /\
     checker_date_test text = false /\ old_scanner_date_test text = true.
 Proof. exact D7_witness. Qed.
 
@@ -62,7 +100,7 @@ Proof. exact D8_witness. Qed.
 Theorem C10_roundtrip_refuted_D10 :
   print_symbol_D10 kw_true = kw_true /\
   scan_arg_vals no_oracle no_oracle (print_symbol_D10 kw_true) 1 = Ok ([VT], []) /\
-  count_printed_arg_vals (print_symbol_D10 kw_MIDI ++ [32; 49]) = Ok (false, 1) /\
+  count_printed_arg_vals no_oracle no_oracle (print_symbol_D10 kw_MIDI ++ [32; 49]) = Ok (false, 1) /\
   (exists text w, print_arg_vals opts80 [VSym kw_true] 0 = Some (text, w) /\
      scan_arg_vals no_oracle no_oracle text 1 = Ok ([VSym kw_true], [])).
 Proof. exact D10_witness. Qed.
